@@ -1,0 +1,15 @@
+//go:build !verif
+
+package client
+
+import goatorepo "github.com/avos-io/goat/gen/goatorepo"
+
+// Without the "verif" build tag the verification hooks are no-ops and these
+// detail renderers are never called (their call sites are behind
+// verifhook.Enabled, a false constant in this build).
+
+func verifErr(error) string { return "" }
+
+func verifReadErr(error) string { return "" }
+
+func verifClass(*goatorepo.Rpc) string { return "" }
